@@ -17,4 +17,4 @@ require (
 	golang.org/x/sys v0.22.0 // indirect
 )
 
-replace github.com/XiXi-2024/xixi-kv => /tmp/fxrepo
+replace github.com/XiXi-2024/xixi-kv => /repo
